@@ -538,6 +538,13 @@ def run_check(prop, modname, tier, seed, jobs, meta, nproc=None, wall_budget_s=N
     """run all jobs, write evidence, print verdict lines, return the exit code"""
     t0 = time.time()
     st, st_errors = engine_selftests(meta, tier, seed)
+    results, extra = run_pool(prop, modname, tier, seed, jobs, nproc)
+    extra["engine_selftests"] = st
+    return finish(prop, tier, seed, results, meta, time.time() - t0, extra_coverage=extra, extra_errors=st_errors)
+
+
+def run_pool(prop, modname, tier, seed, jobs, nproc=None):
+    """run the jobs in worker processes; returns (results, extra coverage entries)"""
     nproc = nproc or int(os.environ.get("PSX_WORKERS", "16"))
     specs = [{"prop": prop, "module": modname, "job": j, "tier": tier, "seed": seed} for j in jobs]
     results = []
@@ -566,10 +573,10 @@ def run_check(prop, modname, tier, seed, jobs, meta, nproc=None, wall_budget_s=N
                 results.append(r)
                 if deadline is None and r.get("violations"):
                     deadline = time.time() + grace
-    extra = {"engine_selftests": st}
+    extra = {}
     if len(results) < len(specs):
         extra["jobs_terminated_after_confirmed_violation"] = len(specs) - len(results)
-    return finish(prop, tier, seed, results, meta, time.time() - t0, extra_coverage=extra, extra_errors=st_errors)
+    return results, extra
 
 
 def finish(prop, tier, seed, results, meta, wall, extra_coverage=None, extra_errors=None, extra_violations=None):
